@@ -83,6 +83,11 @@ CHECKS.update({
          'The reply/op/front-end grid is enumerated completely; concurrency, prefixes and response values are sampled.',
          'Trusts the strict Interest reader and the scripted forwarder in pbt/checks/c17_registration.py.', '6/C17'),
 })
+CHECKS.update({
+ 'C18': ('Hypothesis-generated receive/publish/advance histories on one SvsInst running on appv2 with virtual time and drawn timer jitter; oracle: entry-wise-max model, callback-iff-raised, publish announcement, suppression bookkeeping read from the public state attribute, every emitted vector equals the local vector',
+         'Model-based generated histories with the harness owning the clock (advance to just before / at / just after next_sync_timing); thousands (quick) to ~10^5 (thorough) histories.',
+         'Trusts the model in pbt/checks/c18_svs.py; single-node safety only.', '6/C18'),
+})
 NOT_YET = {}
 def main():
     props = [json.loads(l) for l in open(os.path.join(ROOT, 'properties.jsonl'))]
